@@ -978,6 +978,11 @@ def op_strategy(draw, weighted, kinds, t_strategy=None, clear=True):
         op["follows"] = [{"op": "add_edge", "edge": draw(edge_spec(["fresh"], t_strategy)),
                           "w": draw(weight_for(weighted)), "meta": draw(S.opt_metadata())}
                          for _ in range(n_new)]
+        if draw(st.booleans()):
+            # ... or nodes first come back WITHOUT hyperedges (what a per-node memo kept across
+            # the clear() would still claim about them is wrong now)
+            op["follows"].insert(0, {"op": "add_nodes", "metas": None, "first_meta_missing": False,
+                                     "ns": draw(st.lists(idx, min_size=1, max_size=4, unique=True))})
     if k in ("add_node", "add_nodes", "add_edge", "add_edges") and draw(st.integers(0, 3)) == 0:
         # an in-place metadata edit on an item of this very insertion, executed as the next
         # step (catches dicts shared between the items of one batch)
